@@ -104,6 +104,11 @@ Section Prog.
     | _ => true
     end.
 
+  Definition mode_of (j : option (label * option Z)) : mode :=
+    match j with Some (l, jt) => Seek l jt | None => Exec end.
+  Definition logged (lg : option (Z * list value)) (st : pst) : pst :=
+    match lg with Some (opc, vs) => add_log st opc vs | None => st end.
+
   (* one statement that is not a label: new memory, jump, logged call *)
   Definition sstep (s : sstmt) (m : mem) : outcome (mem * option (label * option Z) * option (Z * list value)) :=
     match s with
@@ -152,10 +157,7 @@ Section Prog.
               else if strict && negb (stmt_nonan s (p_mem st1)) then Err E_NAN_CMP
               else
                 match sstep s (p_mem st1) with
-                | Ok (m', j, lg) =>
-                    let st2 := set_mem st1 m' in
-                    let st3 := match lg with Some (opc, vs) => add_log st2 opc vs | None => st2 end in
-                    sblk rest (match j with Some (l, jt) => Seek l jt | None => Exec end) st3
+                | Ok (m', j, lg) => sblk rest (mode_of j) (logged lg (set_mem st1 m'))
                 | Err e => Err e | Panic p => Panic p | OutOfFuel => OutOfFuel
                 end
         end
